@@ -23,6 +23,9 @@
 //	     equals the reference map A; and what lies below a recorded checkpoint equals the reference
 //	     (map A slots < ckA, map B entries < 2*ckB): recorded progress is not ahead of written data.
 //
+// Family "legacy" additionally rewrites, after an interruption in pass A, the checkpoint to the odd value
+// builds before the fix recorded for the same data, so that resuming such files stays monitored.
+//
 // Optional: C10_FIRST_EXE=<another build of this driver> executes the FIRST run of every case with that
 // binary (used to resume, with a candidate fix, files that the unfixed code interrupted).
 package main
@@ -30,6 +33,7 @@ package main
 import (
 	"bufio"
 	"bytes"
+	"encoding/binary"
 	"encoding/hex"
 	"encoding/json"
 	"fmt"
@@ -86,6 +90,7 @@ type caseSpec struct {
 	PrivHex string    `json:"priv_scalar_hex"`
 	Runs    []runSpec `json:"runs"`
 	Strace  bool      `json:"strace"`
+	Legacy  bool      `json:"legacy"` // after the interruption the pass-A header is rewritten to what builds before the fix recorded (window start + 1)
 }
 
 func simWindowsA(vol uint64, rs int, cap uint64) int {
@@ -334,6 +339,32 @@ func buildCases(seed int64, thorough bool) []caseSpec {
 		}
 		runs = append(runs, rsOf(pickOther(r, cfgs, prev, false), nil))
 		add(caseSpec{Family: "repeated", BL: bl, Key: r.Intn(nKeys), Runs: runs})
+	}
+	// family "legacy": one interruption inside pass A, then the parent rewrites the pass-A checkpoint to the value
+	// builds before the fix recorded for the same data (start of the last completed window + 1, an odd index):
+	// files interrupted by older builds must resume correctly too. On a tree that still records start+1 the
+	// rewrite is a no-op.
+	nLeg := 24
+	if thorough {
+		nLeg = 300
+	}
+	for i := 0; i < nLeg; i++ {
+		r := root.Derive("legacy", i)
+		bl := bls[i%len(bls)]
+		cfgs := windowCfgs(bl, r)
+		before := pickOther(r, cfgs, nil, true)
+		nA, _ := windowsOf(bl, before)
+		kind := []string{"kill", "stop"}[(i/len(bls))%2]
+		var in *intr
+		switch r.Intn(3) {
+		case 0:
+			in = &intr{Kind: kind, Point: "plot.A.windowStart", Occ: 2 + r.Intn(nA-1)}
+		case 1:
+			in = &intr{Kind: kind, Point: "plot.A.dataSynced", Occ: 2 + r.Intn(nA-1)}
+		default:
+			in = &intr{Kind: kind, Point: "plot.A.checkpointed", Occ: 1 + r.Intn(nA)}
+		}
+		add(caseSpec{Family: "legacy", Legacy: true, BL: bl, Key: r.Intn(nKeys), Runs: []runSpec{rsOf(before, in), rsOf(pickOther(r, cfgs, &before, false), nil)}})
 	}
 	// family "strace": whole plots under a syscall trace (O4); 1 in 5 is stopped once and resumed (two traces)
 	nTr := 5
@@ -703,15 +734,20 @@ func execCase(cx *ctx, cs *caseSpec) {
 	lastKind, lastPoint := "none", "-"
 	oddHist, afterSpin, ckOdd := false, false, false
 	o1Fired := false
+	legacyInjected := false
 	interruptions, resumes := 0, 0
 	completed := false
 	var straceCmds []string
 
 	attrsOf := func(pass string) map[string]string {
-		return map[string]string{"pass": pass, "interruption": lastKind, "point": lastPoint,
+		a := map[string]string{"pass": pass, "interruption": lastKind, "point": lastPoint,
 			"checkpoint_odd_on_reopen":        strconv.FormatBool(ckOdd),
 			"odd_passA_checkpoint_in_history": strconv.FormatBool(oddHist),
 			"after_spin":                      strconv.FormatBool(afterSpin)}
+		if cs.Legacy {
+			a["legacy_checkpoint_injected"] = strconv.FormatBool(legacyInjected)
+		}
+		return a
 	}
 	violate := func(kind, pass string, extraAttrs map[string]string, extra map[string]interface{}) {
 		a := attrsOf(pass)
@@ -944,6 +980,36 @@ func execCase(cx *ctx, cs *caseSpec) {
 			violate("plot-returns-without-completing", "-", nil, map[string]interface{}{"note": "Plot() returned nil, no stop was issued, the end of the plot was not reached"})
 		case "crashed":
 			violate("plotting-process-died", "-", nil, map[string]interface{}{"exit_code": res.ExitCode, "signal": res.Signal, "fatal": vh.ScanFatal(outFile, 25)})
+		}
+
+		// legacy family: make the header look as a build before the fix left it (same data on disk, checkpoint = window start + 1)
+		if cs.Legacy && (outcome == "killed" || outcome == "stopped") {
+			var lastW *event
+			sawFinal := false
+			for i := range evs {
+				if evs[i].Point == "plot.A.checkpointed" {
+					lastW = &evs[i]
+				}
+				sawFinal = sawFinal || evs[i].Point == "plot.A.final"
+			}
+			if lastW != nil && !sawFinal {
+				pathA, _ := mapPaths(plotDir, int64(cs.Key), pub, bl)
+				cur, want := readCkPath(pathA), lastW.Start+1
+				switch {
+				case cur == want:
+					run.Count("legacy_header_already_recorded_as_window_start_plus_1", 1)
+				case cur >= 0 && cur < int64(vol):
+					if f, err := os.OpenFile(pathA, os.O_WRONLY, 0); err == nil {
+						var b8 [8]byte
+						binary.LittleEndian.PutUint64(b8[:], uint64(want))
+						f.WriteAt(b8[:], posCheckpoint)
+						f.Close()
+						legacyInjected = true
+						step["header_rewritten_as_older_builds_recorded_it"] = map[string]int64{"from": cur, "to": want}
+						run.Count("legacy_headers_rewritten_to_window_start_plus_1", 1)
+					}
+				}
+			}
 		}
 
 		// reopen, O1/O3/O5
